@@ -109,6 +109,12 @@ def instantiations(tier, seed):
     basics += [F.N("XNor", nA(), nB(), id="A"), F.N("Any", nA(), F.N("Not", nA()), id="A"), F.N("Imply", nA(), nA(), id="A"),
                F.N("All", F.N("Imply", nA(), F.c()), F.N("Imply", F.d(), nA()), id="A"), F.N("Xor", nA(), F.N("Not", nB()), nB(), id="A"),
                F.N("All", F.N("XNor", nA(), F.c()), F.N("Any", nA(), F.d()), id="A")]
+    # different compound arguments whose generated ids coincide (the id digests the concatenated child ids: "1"+"12" == "11"+"2")
+    V_ = F.V
+    basics += [F.N("All", F.N("Any", V_("1"), V_("12")), F.N("Any", V_("11"), V_("2")), id="A"),
+               F.N("Xor", F.N("Any", V_("12"), V_("34")), F.N("Any", V_("1234")), V_("5"), id="A"),
+               F.N("Imply", F.N("All", F.N("Any", V_("1"), V_("12")), F.N("Any", V_("11"), V_("2"))), V_("q"), id="A"),
+               F.AL(2, F.N("All", V_("ab"), V_("c")), F.N("All", V_("a"), V_("bc")), V_("d"), id="A", sign=None)]
     routed = [(sk, how) for sk in basics for how in ("ctor", "json", "ctor-str")]
     routed += [(sk, ["ctor", "json", "ctor-str"][k % 3]) for k, sk in enumerate(skels)]
     for k, (sk, how) in enumerate(routed):
